@@ -98,10 +98,15 @@ def impl_functions():
     fs['unprefixize_uri_if_possible'] = lambda strs, flag, opt: uri.unprefixize_uri_if_possible(strs[0], dict(zip(strs[1::2], strs[2::2])), flag)
     fs['unprefixize_uri_mandatory'] = lambda strs, flag, opt: uri.unprefixize_uri_mandatory(strs[0], dict(zip(strs[1::2], strs[2::2])), flag)
     fs['prefixize_uri_if_possible'] = lambda strs, flag, opt: uri.prefixize_uri_if_possible(strs[0], dict(zip(strs[1::2], strs[2::2])), flag)
+    lp = importlib.import_module("shexer.io.shape_map.label.shape_map_label_parser")
+    mk = lambda strs: lp.ShapeMapLabelParser(prefix_namespaces_dict=dict(zip(strs[1::2], strs[2::2])))
+    fs['label_is_a_prefixed_uri'] = lambda strs, flag, opt: "1" if mk(strs)._is_a_prefixed_uri(strs[0]) else "0"
+    fs['label_parse_prefixed_label'] = lambda strs, flag, opt: mk(strs)._parse_prefixed_label(strs[0])
+    fs['parse_shape_map_label'] = lambda strs, flag, opt: mk(strs).parse_shape_map_label(strs[0])
     return fs
 
 
-ARITY = {'add_corners': 1, 'add_corners_if_needed': 1, 'add_corners_if_it_is_an_uri': 1, 'there_is_arroba_after_last_quotes': 1,
+ARITY = {'label_is_a_prefixed_uri': 1, 'label_parse_prefixed_label': 1, 'parse_shape_map_label': 1, 'add_corners': 1, 'add_corners_if_needed': 1, 'add_corners_if_it_is_an_uri': 1, 'there_is_arroba_after_last_quotes': 1,
          'unprefixize_uri_if_possible': 1, 'unprefixize_uri_mandatory': 1, 'prefixize_uri_if_possible': 1, 'serializer_prefixize_uri_if_possible': 1, 'check_if_property_belongs_to_namespace_list': 1, 'determine_suitable_iri_pattern': 0, 'longest_common_prefix': 2, 'remove_corners': 1, 'decide_literal_type': 1, 'build_shapes_name_for_class_uri': 2, 'get_shape_label_for_class_uri': 1}
 
 
@@ -127,6 +132,12 @@ def gen_function(rng, names):
         strs = [rng.choice(['<', '']) + rng.choice(pres + ['zz', 'https']) + rng.choice([':', '://', '', ':ex:']) + rstr(rng, ['p', 'q', '/', '#', 'ex:', ':', '>'], 0, 3)]
         for k in keys:
             strs += [k, rng.choice(['http://example.org/', 'http://e.org/ns#', '', 'ex:'])]
+    if name in ('label_is_a_prefixed_uri', 'label_parse_prefixed_label', 'parse_shape_map_label'):
+        pres = ['ex', 'e', '', 'sx', 'a:b', '<ex']
+        keys = rng.sample(pres, rng.randint(0, 4))
+        strs = [rng.choice(['', '<', '<http://e.org/', 'ex:', 'sx:', ':', 'zz:', 'ex', 'e:x:']) + rstr(rng, ['S', '1', ':', 'adult', '>', '/', '#'], 0, 3)]
+        for k in keys:
+            strs += [k, rng.choice(['http://example.org/', 'http://shapes.example/ns#', ''])]
     if name == 'prefixize_uri_if_possible':
         nss = ['http://example.org/', 'http://example.org/deep/', 'http://example.org/dee', 'http://example.org/ns#', 'urn:x:', 'ab', '<http://example.org/', '']
         keys = rng.sample(nss, rng.randint(0, 4))
